@@ -77,3 +77,47 @@ def m_c14_with_trailing_blank_or_comment(f, rec):
         lines_a.pop()
     core = textwrap.dedent("\n".join(lines_a) + "\n")
     return core == vb
+
+
+def m_c09_lone_cr(f, rec):
+    src = rec["case"]["src"]
+    return re.search(r"\r(?!\n)", src) is not None
+
+
+def m_c09_unbalanced_closer(f, rec):
+    """a closing bracket without opener (outside strings/comments, per CPython's tokens)"""
+    import io
+    import tokenize
+
+    if rec["clause"] != "implementation_rejects_what_cpython_tokenizes":
+        return False
+    depth = 0
+    try:
+        for t in tokenize.generate_tokens(io.StringIO(rec["case"]["src"]).readline):
+            if t.type == tokenize.OP and t.string in "([{":
+                depth += 1
+            elif t.type == tokenize.OP and t.string in ")]}":
+                depth -= 1
+                if depth < 0:
+                    return True
+    except (tokenize.TokenError, SyntaxError):
+        return False
+    return False
+
+
+def m_c09_continuation_only_line(f, rec):
+    return re.search(r"(^|\n)[ \t\f]*\\\r?\n", rec["case"]["src"]) is not None
+
+
+def m_c09_continued_comment_eof(f, rec):
+    src = rec["case"]["src"]
+    lines = src.split("\n")
+    if len(lines) < 2 or src.endswith("\n"):
+        return False
+    return lines[-1].strip().startswith("#") and lines[-2].rstrip("\r").endswith("\\")
+
+
+def m_c01_nonascii_columns(f, rec):
+    """the trees are equal once the implementation's character columns are converted to UTF-8 byte
+    columns (computed by the worker on the whole tree: detail.eq_after_bytecols)"""
+    return rec["clause"] == "span" and (rec.get("detail") or {}).get("eq_after_bytecols") is True and not rec["case"]["src"].isascii()
